@@ -538,6 +538,7 @@ type loopyWriter struct {
 	hEnc          *hpack.Encoder // HPACK encoder.
 	bdpEst        *bdpEstimator
 	draining      bool
+	drainPending  bool // server side: final GOAWAY written, waiting for the marker item
 	conn          net.Conn
 	logger        *grpclog.PrefixLogger
 	bufferPool    mem.BufferPool
@@ -865,6 +866,16 @@ func (l *loopyWriter) incomingGoAwayHandler(*incomingGoAway) error {
 			// Flush and close the connection; we are done with it.
 			return errors.New("received GOAWAY with no active streams")
 		}
+		return nil
+	}
+	if l.drainPending {
+		// Every registerStream of a stream accepted before the final GOAWAY
+		// was queued ahead of this marker and has been processed by now.
+		l.drainPending = false
+		l.draining = true
+		if len(l.estdStreams) == 0 {
+			return errors.New("finished processing active streams while in draining mode")
+		}
 	}
 	return nil
 }
@@ -875,6 +886,13 @@ func (l *loopyWriter) goAwayHandler(g *goAway) error {
 		draining, err := l.ssGoAwayHandler(g)
 		if err != nil {
 			return err
+		}
+		if draining && l.side == serverSide {
+			// Streams accepted up to the id just announced may still have their
+			// registerStream item queued behind this goAway: enter draining mode
+			// only after everything queued so far has been handled.
+			l.drainPending = true
+			return l.cbuf.put(&incomingGoAway{})
 		}
 		l.draining = draining
 	}
